@@ -14,15 +14,18 @@ from engine import facts  # noqa: E402
 os.environ["HN_NO_INLINE"] = "1"
 d, info = facts.acquire()
 paths = []
+meta = {}
 for c in facts.CRATES:
     raw = json.load(open(os.path.join(d, c + ".json")))
     for b in raw["bodies"]:
         if b["kind"] in ("Fn", "AssocFn"):
             paths.append(b["path"])
+            # what identifies the function when only its name or module changes: crate, signature, impl type, trait
+            meta[b["path"]] = [c, b.get("sig"), b.get("impl_self"), b.get("impl_trait") or b.get("trait_default_of")]
 head = subprocess.check_output(["git", "-C", facts.REPO, "rev-parse", "--short", "HEAD"], text=True).strip()
 dirty = subprocess.check_output(["git", "-C", facts.REPO, "status", "--porcelain"], text=True).strip()
 if dirty:
     sys.exit("refusing: /repo working tree is not clean")
 out = os.path.join(facts.VERIF, "tables", "reference_functions.json")
-json.dump({"reference_commit": head, "count": len(paths), "paths": sorted(paths)}, open(out, "w"), indent=0)
+json.dump({"reference_commit": head, "count": len(paths), "paths": sorted(paths), "meta": meta}, open(out, "w"), indent=0)
 print("wrote", out, len(paths), "functions at", head)
